@@ -17,6 +17,7 @@ import (
 
 	sdk "github.com/cosmos/cosmos-sdk/types"
 	"github.com/cosmos/cosmos-sdk/types/query"
+	fttypes "github.com/jackalLabs/canine-chain/v4/x/filetree/types"
 	notiftypes "github.com/jackalLabs/canine-chain/v4/x/notifications/types"
 	rnstypes "github.com/jackalLabs/canine-chain/v4/x/rns/types"
 	sttypes "github.com/jackalLabs/canine-chain/v4/x/storage/types"
@@ -805,6 +806,78 @@ func notifQueryStep(c *Chain, r *rand.Rand, pg *pager, actors []string) (map[str
 				items = append(items, notifJ(x))
 			}
 			return listed("notifs", items, nil, res.Pagination.Total), nil
+		})
+	}
+	return q, resp, kind
+}
+
+// ---------------------------------------------------------------- filetree
+
+func ftEntryJ(f fttypes.Files) map[string]interface{} {
+	return map[string]interface{}{"address": f.Address, "owner": f.Owner, "contents": f.Contents, "viewers": aclJ(f.ViewingAccess), "editors": aclJ(f.EditAccess), "tracking": f.TrackingNumber}
+}
+
+func ftQueryStep(c *Chain, r *rand.Rand, pg *pager, crafted func() string) (map[string]interface{}, interface{}, string) {
+	k := c.A.FileTreeKeeper
+	ctx := c.Ctx()
+	w := sdk.WrapSDKContext(ctx)
+	files := k.GetAllFiles(ctx)
+	var q map[string]interface{}
+	var resp interface{}
+	kind := ""
+	switch n := r.Intn(5); {
+	case n < 2:
+		kind = "file"
+		a, o := crafted(), crafted()
+		if len(files) > 0 && r.Intn(5) > 0 {
+			f := files[r.Intn(len(files))]
+			a, o = f.Address, f.Owner
+			switch r.Intn(8) {
+			case 0:
+				o = crafted()
+			case 1: // the same raw key, cut elsewhere
+				if i := strings.Index(a, "/"); i >= 0 {
+					a, o = a[:i], a[i+1:]+"/"+o
+				}
+			}
+		}
+		q = map[string]interface{}{"file": map[string]interface{}{"address": a, "owner": o}}
+		resp = safely(func() (interface{}, error) {
+			res, err := k.File(w, &fttypes.QueryFile{Address: a, OwnerAddress: o})
+			if err != nil {
+				return nil, err
+			}
+			return map[string]interface{}{"file": map[string]interface{}{"f": ftEntryJ(res.File)}}, nil
+		})
+	case n < 4:
+		kind = "allFiles"
+		req, pj := pg.page(kind, c.rawKeys(fttypes.StoreKey, fttypes.FilesKeyPrefix))
+		q = map[string]interface{}{"allFiles": map[string]interface{}{"page": pageOrDefault(pj)}}
+		resp = safely(func() (interface{}, error) {
+			res, err := k.AllFiles(w, &fttypes.QueryAllFiles{Pagination: req})
+			if err != nil {
+				return nil, err
+			}
+			items := []interface{}{}
+			for _, f := range res.Files {
+				items = append(items, ftEntryJ(f))
+			}
+			nk, tot := pg.note(kind, res.Pagination)
+			return listed("files", items, nk, tot), nil
+		})
+	default:
+		kind = "pubKey"
+		a := crafted()
+		if keys := k.GetAllPubkey(ctx); len(keys) > 0 && r.Intn(3) > 0 {
+			a = keys[r.Intn(len(keys))].Address
+		}
+		q = map[string]interface{}{"pubKey": map[string]interface{}{"address": a}}
+		resp = safely(func() (interface{}, error) {
+			res, err := k.PubKey(w, &fttypes.QueryPubKey{Address: a})
+			if err != nil {
+				return nil, err
+			}
+			return map[string]interface{}{"key": map[string]interface{}{"k": res.PubKey.Key}}, nil
 		})
 	}
 	return q, resp, kind
